@@ -258,6 +258,12 @@ pub struct RunCfg {
     /// lifecycle still finishing its bookkeeping").
     #[serde(default)]
     pub f_stall: u32,
+    /// Per mille of crashes after which the node stays down for hours or days.
+    #[serde(default)]
+    pub f_long_downtime: u32,
+    /// wire profile: the first hook call is written in the same chunk as `init`.
+    #[serde(default)]
+    pub pipeline_init: bool,
     /// E2: number and states of parts that exist before the component is called
     /// (0 pending, 1 failed, 2 complete).
     #[serde(default)]
@@ -339,6 +345,8 @@ pub fn base_cfg(rng: &mut Rng, profile: &str) -> RunCfg {
         freeze: false,
         mode: "process".into(),
         f_stall: 0,
+        f_long_downtime: 0,
+        pipeline_init: false,
         raw_opts: None,
         pre_parts: Vec::new(),
     }
@@ -423,7 +431,12 @@ pub fn onion_payload_ext(
     }
     let n = extra_after & 3;
     for i in 0..n {
-        let len = if i == 0 && extra_after & 4 != 0 { 300 } else { 1 + i as usize * 2 };
+        // Lengths around the BigSize width boundary (252 / 253 / 254 / 255 / 256 / 300).
+        let len = if i == 0 && extra_after & 4 != 0 {
+            [300usize, 253, 252, 254, 255, 256][(forward as usize ^ extra_after as usize ^ total as usize) % 6]
+        } else {
+            1 + i as usize * 2
+        };
         recs.push((65537 + 2 * i as u64, (0..len).map(|k| (k as u8).wrapping_mul(7).wrapping_add(i)).collect()));
     }
     with_length_prefix(&encode_tlv(&recs))
